@@ -4,6 +4,7 @@ import structcases
 import obs
 
 ID = "C09"
+VALIDATE_MIX = True
 REQUIRES = ["Agree", "StructSpec", "Truth"]
 THEOREM_REQUIRES = ["C09"]
 THEOREMS = ["C09_holds_bool", "C09_non_interference", "C09_non_interference_text", "C09_fields_only_mv"]
@@ -29,7 +30,7 @@ ROLE_B = ("struct Instance { @location(4) offset: vec4<f32>, @location(5) tint: 
 
 
 def cases(rng, tier):
-    out = structcases.cases(rng, tier, big_arrays=True)
+    out = structcases.cases(rng, tier, big_arrays=True, huge_arrays=True, allow_bool=True)
     # the same struct definition in two modules generated one after the other with the same options: host-shareable
     # (storage element) in one, a plain vertex input in the other - its derives follow ITS role in THAT module
     pairs = []
@@ -94,6 +95,9 @@ def verdict_expr_noout(c, r, ir):
 
 def verdict_expr(c, r, ir, real):
     t = structcases.truth_term(c["truth"], c["opts"])
+    if c["opts"].get("validate") and r.get("valid") is False:
+        # rejected by the validator that was asked for: not an accepted shader (the model must agree on the error)
+        return '[wf %s; agree_res agree_C09 (gen %s ""%%string None %s) %s; true]' % (ir, ir, coq_options(c["opts"]), real)
     return _verdict(c, r, ir, real, t).replace("OBS", _obs(c, r))
 
 
